@@ -165,7 +165,7 @@ func (w *World) opRootCheck(op *Op) {
 						if !ok {
 							return -1
 						}
-						l := IndepLayer(w.kd.Key(ki), bf)
+						l := IndepLayerM(w.kd.Key(ki), bf, w.cfg.MarshalFn())
 						if l < min {
 							min = l
 						}
